@@ -73,6 +73,13 @@ Proof.
     + apply IH; auto. intro H. apply Hin. simpl; auto.
 Qed.
 
+Lemma NoDup_app_left : forall A (a b : list A), NoDup (a ++ b) -> NoDup a.
+Proof.
+  induction a as [|x a IH]; intros b H; simpl in *; constructor; inversion H; subst.
+  - intro Hin. apply H2. apply in_or_app; auto.
+  - eapply IH; eauto.
+Qed.
+
 Lemma aget_filter_key : forall V (p : Z -> bool) k (l : list (Z * V)),
   aget k (filter (fun e => p (fst e)) l) = if p k then aget k l else None.
 Proof.
@@ -804,7 +811,7 @@ Section Proofs.
       apply nodup_by_ref. intros r.
       assert (NoDup (fr r (fed s))).
       { unfold fr. apply NoDup_filter. eapply NoDup_map_inv; eauto. }
-      rewrite Hex in H. eapply NoDup_app_remove_r; eauto.
+      rewrite Hex in H. eapply NoDup_app_left; eauto.
     - intros r. eexists. apply Hex.
   Qed.
 
